@@ -82,6 +82,9 @@ func raceMain(args []string) int {
 				k := []string{"create", "drop"}[i/2%2]
 				o := bt.Op{Ev: "ModifyFamilies", T: T, Mods: []bt.Mod{{K: k, F: j.S("h"), Rule: bt.Rule{T: "maxver", N: 2}}}}
 				s.Exec(&o)
+				// ... and on the tables that are being created and deleted meanwhile
+				o2 := bt.Op{Ev: "ModifyFamilies", T: tmpT(i), Mods: []bt.Mod{{K: k, F: j.S("h"), Rule: bt.Rule{T: "maxver", N: 2}}}}
+				s.Exec(&o2)
 			},
 			"DropRowRange": func(i int) {
 				o := bt.Op{Ev: "DropRowRange", T: T, HasPrefix: true, Prefix: j.S(fmt.Sprintf("r%03d", i%150))}
